@@ -578,14 +578,21 @@ class Driver:
         by_run = {r['run']: r for r in self.results}
         bad = []
         n = 0
-        for d in self.det:
+        # Event digests may depend on the allocation history of the worker process (e.g. beartype memo tables keyed by
+        # objects that hash by address): both executions share that history only until one of them lost a run to a hang
+        # or a replaced process. From there on only the verdicts are compared.
+        same_history = True
+        for d in sorted(self.det, key=lambda x: x['run']):
             o = by_run.get(d['run'])
             if o is None or o.get('harness') or d.get('harness'):
+                same_history = False
                 continue
             n += 1
-            if o.get('digest') != d.get('digest') or \
+            if (same_history and o.get('digest') != d.get('digest')) or \
                     (o.get('violation') or {}).get('kind') != (d.get('violation') or {}).get('kind'):
                 bad.append((d['run'], o.get('digest'), d.get('digest')))
+            if o.get('poisoned') or d.get('poisoned'):
+                same_history = False
         return n, bad
 
     # -- violations -------------------------------------------------------
